@@ -36,6 +36,8 @@ def make_ali(desc):
     import torch
     if "vec" in desc:
         return torch.tensor(desc["vec"], dtype=torch.int64).reshape(len(desc["vec"])).to(torch_dtype(desc["dtype"]))
+    if "flat" in desc:  # not 1-D: the entries in storage order (the info-only report counts them)
+        return torch.tensor(desc["flat"], dtype=torch.int64).reshape(desc["nd"]).to(torch_dtype(desc["dtype"]))
     return torch.zeros(desc["nd"], dtype=torch_dtype(desc["dtype"]))
 
 
@@ -69,6 +71,7 @@ def desc_ali(x):
         d["vec"] = ints(x)
     else:
         d["nd"] = list(x.shape)
+        d["flat"] = ints(x.flatten())
     return d
 
 
@@ -115,6 +118,11 @@ def write_dir(root, case):
         for s, mk in (("feat", make_feat), ("ali", make_ali), ("ref", make_ref)):
             if u.get(s) is not None and s in case["dirs"]:
                 torch.save(mk(u[s]), os.path.join(root, subname(layout, s) or s, fname(layout, u["name"])))
+    if "" in layout.get("sub", {}).values():
+        # a sub-directory named "" is "do not look", NOT "look in the data directory itself": a file
+        # with a matching name at the top level must stay unseen
+        with open(os.path.join(root, fname(layout, "zz")), "wb") as f:
+            f.write(b"not a tensor file")
     for s, nm in layout.get("stray", []):
         os.makedirs(os.path.join(root, s), exist_ok=True)
         with open(os.path.join(root, s, nm), "wb") as f:
@@ -130,8 +138,9 @@ def discovered(case):
     layout = case.get("layout", {})
     cfg = case.get("cfg", {})
     have = {s: {u["name"] for u in case["utts"] if u.get(s) is not None and s in dirs} for s in SUBDIRS}
-    look = {"ali": subname(layout, "ali") is not None and not cfg.get("suppress_alis", False),
-            "ref": subname(layout, "ref") is not None}
+    # `if ali_subdir and ...`: None and the empty string both mean "do not look"
+    look = {"ali": bool(subname(layout, "ali")) and not cfg.get("suppress_alis", False),
+            "ref": bool(subname(layout, "ref"))}
     ids = set(have["feat"])
     if layout.get("subset"):
         ids &= set(layout["subset"])
@@ -151,7 +160,7 @@ def listing(root, case):
            "subset": list(layout.get("subset", []))}
     for s in SUBDIRS:
         nm = subname(layout, s)
-        p = os.path.join(root, nm) if nm is not None else None
+        p = os.path.join(root, nm) if nm else None  # None or "": the data set does not look
         if s == "ali" and cfg.get("suppress_alis", False):
             p = None
         out[s] = sorted(os.listdir(p)) if p is not None and os.path.isdir(p) else None
@@ -259,11 +268,12 @@ def rand_layout(rng, case, cli=False, level=2):
     # never the same directory twice
     if len({sub.get(s, s) for s in SUBDIRS}) < 3:
         sub = {"ali": "ref", "ref": "ali"} if rng.random() < 0.5 else {}
-    if not cli and rng.random() < 0.15:
+    if rng.random() < 0.15:
         s_none = rng.choice(["ali", "ref"])
-        # the files of a sub-directory the data set is told not to look at stay under the default name
+        # the files of a sub-directory the data set is told not to look at stay under the default name;
+        # "not to look" is None or the empty string (the command line can only say the latter)
         if s_none not in [v for k, v in sub.items() if k != s_none]:
-            sub[s_none] = None
+            sub[s_none] = "" if cli else rng.choice([None, ""])
     if sub:
         lay["sub"] = sub
     names = [u["name"] for u in case["utts"]]
@@ -276,7 +286,7 @@ def rand_layout(rng, case, cli=False, level=2):
              "." + lay["prefix"] + "u0" + lay["suffix"] + "~"]
     for s in SUBDIRS:
         d = sub.get(s, s)
-        if d is None or s not in case["dirs"]:
+        if not d or s not in case["dirs"]:
             continue
         # feat/ always holds a prefix-only and a suffix-only file (an option that is not honoured lets
         # them in); the companions a random selection
@@ -340,12 +350,21 @@ def _d_feat_nontensor(rng, d, u, k):
 
 def _d_ali_dtype(rng, d, u, k):
     u["ali"]["dtype"] = rng.choice(["u8", "i8", "i16", "i32", "f32", "f64", "bool", "f16"])
-    if u["ali"]["dtype"] == "bool" and "vec" in u["ali"]:
-        u["ali"]["vec"] = [min(x, 1) for x in u["ali"]["vec"]]
+    if u["ali"]["dtype"] == "bool":
+        for k_ in ("vec", "flat"):
+            if k_ in u["ali"]:
+                u["ali"][k_] = [min(x, 1) for x in u["ali"][k_]]
 
 
 def _d_ali_nd(rng, d, u, k):
-    u["ali"] = {"dtype": u["ali"]["dtype"], "dev": "cpu", "nd": rng.choice([[T_of(u), 1], [], [1, T_of(u)]])}
+    # (T, 2) with runs that cross the row boundary: unique_consecutive flattens in the info-only mode
+    shape = rng.choice([[T_of(u), 1], [], [1, T_of(u)], [T_of(u), 2], [2, 2]])
+    n = 1
+    for x in shape:
+        n *= x
+    u["ali"] = {"dtype": u["ali"]["dtype"], "dev": "cpu", "nd": shape, "flat": [rng.randrange(0, 3) for _ in range(n)]}
+    if u["ali"]["dtype"] == "bool":
+        u["ali"]["flat"] = [min(x, 1) for x in u["ali"]["flat"]]
 
 
 def _d_ali_long(rng, d, u, k):
